@@ -16,6 +16,8 @@ BASE = [PYSEM, SOLVERS, EXTRACT]
 SUBTRACT = "RangeSet.subtract: its contract (view' = view minus [start,stop)) is ASSUMED at call sites, not proved; it is checked on the real function only by the bounded stand-in rangeset-smallscope"
 CALLERS_ONCE = "caller history: the recovery layer reports each sent frame acknowledged or lost at most once, and a range reported lost lies inside the sender's current buffer window (precondition of on_data_delivery, not proved here)"
 
+CONN0 = "quic/connection.py::QuicConnection."
+
 PROPS["C02"] = dict(
     functions=["quic/packet.py::decode_packet_number"],
     bounded=["native-xcheck-pn"],
@@ -27,7 +29,7 @@ PROPS["C02"] = dict(
 )
 
 PROPS["C06"] = dict(
-    functions=[(TX + "get_frame", 4), TX + "write", TX + "get_reset_frame", RS + "add", RS + "shift", RS + "__getitem__"],
+    functions=[(TX + "get_frame", 6), TX + "__init__", TX + "write", TX + "get_reset_frame", (TX + "on_data_delivery", 4), RS + "__init__", RS + "add", RS + "shift", RS + "__getitem__"],
     bounded=["rangeset-smallscope", "stream-sender-model", "native-xcheck-stream"],
     scope="decided for all states and arguments of the send half: every STREAM frame cut by get_frame ends at or below max_offset (the per-stream/connection credit handed in by the connection) and carries at most max_size bytes; highest_offset is the running maximum of frame ends, so a retransmitted range (offset below highest_offset) does not raise it and consumes no additional credit; the RESET_STREAM final size equals highest_offset",
     lemma="per-stream clause of C06: by induction over calls, highest_offset = max over emitted frames of offset+len (get_frame ensures.5/6, write leaves it unchanged), and each emitted frame satisfies offset+len <= max_offset (ensures.2); hence highest offset sent <= the limit passed by the caller at that call",
@@ -37,7 +39,8 @@ PROPS["C06"] = dict(
 )
 
 PROPS["C07"] = dict(
-    functions=[RX + "handle_reset", RX + "handle_frame", RX + "_pull_data"],
+    functions=[RX + "__init__", RX + "handle_reset", (RX + "handle_frame", 12), RX + "_pull_data", RS + "__init__",
+               CONN0 + "_get_or_create_stream", (CONN0 + "_handle_stream_frame", 6), CONN0 + "_handle_reset_stream_frame", CONN0 + "_handle_path_challenge_frame"],
     bounded=["stream-receiver-model", "native-xcheck-stream"],
     scope="decided for all receive-half states and all frames/resets: FinalSizeError is raised exactly when data lies beyond, or a FIN or reset disagrees with, an already fixed final size (both directions), an accepted FIN/reset fixes the final size, highest_offset is the running maximum of frame ends, and a refused frame/reset leaves final size, highest offset, delivery position and finished flag unchanged",
     lemma="final-size clause of C07 ('a final size beyond/contradicting ... closes with the final-size error, a conforming peer is never accused') = raises-iff of handle_frame and handle_reset; connection.py maps FinalSizeError to FINAL_SIZE_ERROR (not proved here)",
@@ -88,9 +91,9 @@ PROPS["C08"] = dict(
 
 PROPS["C10"] = dict(
     functions=[
-        RS + "add", RS + "shift", RS + "bounds", RS + "__getitem__", RS + "__len__",
-        RX + "handle_reset", RX + "handle_frame", RX + "_pull_data",
-        (TX + "get_frame", 4), TX + "write", TX + "reset", TX + "get_reset_frame", TX + "on_reset_delivery",
+        RS + "__init__", RS + "add", RS + "shift", RS + "bounds", RS + "__getitem__", RS + "__len__",
+        RX + "__init__", RX + "handle_reset", (RX + "handle_frame", 12), RX + "_pull_data",
+        TX + "__init__", (TX + "get_frame", 6), TX + "write", TX + "reset", TX + "get_reset_frame", TX + "on_reset_delivery", (TX + "on_data_delivery", 4),
     ],
     bounded=["rangeset-smallscope", "stream-receiver-model", "stream-sender-model", "native-xcheck-stream"],
     scope="decided for all inputs and call histories: RangeSet add/shift/bounds/index against the abstract set-of-integers view with the sortedness/disjointness representation invariant; receive half: final-size error exactly when required, FIN/reset fix the final size; send half: frames start at the first pending offset, stay within size and offset caps, remove exactly their range from the pending set, write adds exactly the written range, nothing is offered after reset (get_frame refuses), reset latches the first error code, completion on acknowledged reset",
